@@ -3,8 +3,8 @@
    groupings, cost, vicinity, local search with 200 iterations and restarts of optimal_grouping), tied to
    aotools/turbulence/profile_compression.py by the correspondence check (harness/pC18.py; equivalent_layers
    bit-exactly, optimal_grouping with the restarts recorded from numpy.random.choice). *)
-From Coq Require Import Reals Arith List Sorted PrimFloat.
-Require Import AOV.base.Num AOV.base.NumR AOV.base.NumF AOV.model.Compress AOV.proofs.C18_proofs AOV.proofs.C18_float.
+From Coq Require Import Reals Arith List Sorted PrimFloat Permutation.
+Require Import AOV.base.Num AOV.base.NumR AOV.base.NumF AOV.model.Compress AOV.proofs.C18_proofs AOV.proofs.C18_float AOV.proofs.C18_perm.
 Import ListNotations.
 Local Open Scope R_scope.
 
@@ -142,3 +142,17 @@ Proof.
   repeat apply conj; try (repeat constructor; fail); try (apply equal_split_Inv; repeat constructor).
   all: unfold Inv; repeat apply conj; repeat constructor.
 Qed.
+
+
+(* a profile is a SET of layers: the same layers listed in any other order (top-down, shuffled) give the same compressed
+   profile -- over the reals, for every profile and every number of slabs (harness: the same clause on the implementation) *)
+Theorem C18_el_does_not_depend_on_the_order_of_the_layers : forall G K (h p w h' p' w' : list R) (L : nat),
+  length h = length p -> length p = length w -> length h' = length p' -> length p' = length w' ->
+  Permutation (combine h (combine p w)) (combine h' (combine p' w')) ->
+  equivalent_layers (ROps G K) h' p' w' L = equivalent_layers (ROps G K) h p w L.
+Proof. exact equivalent_layers_permutation_gen. Qed.
+Print Assumptions C18_el_does_not_depend_on_the_order_of_the_layers.
+
+Theorem C18_el_of_the_profile_listed_top_down : forall G K h p w L, length h = length p -> length p = length w -> h <> [] ->
+  equivalent_layers (ROps G K) (rev h) (rev p) (rev w) L = equivalent_layers (ROps G K) h p w L.
+Proof. exact equivalent_layers_reversed. Qed.
